@@ -172,13 +172,15 @@ def parseSeq (ts : List String) : Option SeqCase :=
 structure ConcCase where
   pre : List Op
   threads : List (List Op)
+  /-- the case's own token of every call (`w`, `x`, `y` are observers that share a model call with `l` / `t`) -/
+  toks : List (List String) := []
 
 def parseConc (ts : List String) : Option ConcCase :=
   match ts with
-  | "C" :: pre :: ths => do
+  | "C" :: pre :: ths0 => do
     let pre ← parseOps 0 pre
-    let ths ← ((List.range ths.length).zip ths).mapM fun (i, t) => parseCOps (100 * (i + 1)) t
-    pure { pre := pre, threads := ths }
+    let ths ← ((List.range ths0.length).zip ths0).mapM fun (i, t) => parseCOps (100 * (i + 1)) t
+    pure { pre := pre, threads := ths, toks := ths0.map (splitList · ",") }
   | _ => none
 
 /-- bulk case `B <K> <pre> <adds>`: the pre ops, then all the adds through ONE `add_rules_from_grl` call, which is
@@ -277,7 +279,8 @@ def oracleSeq (c : SeqCase) (obs : String) : String :=
       | some i => s!"fail {clauseAt c.K i {} 0 c.ops os}@{i}"
       | none => "fail runOk"
 
-def parseEvent (c : ConcCase) (idx : Nat) (s : String) : Option Event :=
+/-- the event and the public read method it is a call of (`-` for a mutator): the first letter of the case's token -/
+def parseEvent (c : ConcCase) (idx : Nat) (s : String) : Option (Event × String) :=
   match s.splitOn ":" with
   | [who, inv, resp, out] =>
     match who.splitOn "." with
@@ -286,7 +289,10 @@ def parseEvent (c : ConcCase) (idx : Nat) (s : String) : Option Event :=
       let p ← p.toNat?
       let ops ← c.threads[t]?
       let op ← ops[p]?
-      pure { id := idx, inv := ← inv.toNat?, resp := ← resp.toNat?, op := op, out := ← parseOut op out }
+      let tok := ((c.toks[t]?.getD [])[p]?).getD "-"
+      let letter := String.ofList (tok.toList.take 1)
+      let rd := if ["g", "l", "n", "k", "s", "i", "v", "t", "w", "x", "y"].contains letter then letter else "-"
+      pure ({ id := idx, inv := ← inv.toNat?, resp := ← resp.toNat?, op := op, out := ← parseOut op out }, rd)
     | _ => none
   | _ => none
 
@@ -297,13 +303,21 @@ def oracleConc (c : ConcCase) (obs : String) : String :=
   else if parts.length != total then "fail length" else
   match ((List.range parts.length).zip parts).mapM fun (i, s) => parseEvent c i s with
   | none => "fail unparsable-observation"
-  | some evs =>
+  | some evls =>
+    let evs := evls.map (·.1)
     let kb0 := c.pre.foldl (fun kb op => (step kb op).1) KB.init
     if linSearch evs.length evs kb0 then
       let overlap := evs.any fun e => evs.any fun f => e.id != f.id && e.inv < f.resp && f.inv < e.resp
       let changed := evs.any fun e => Out.changed e.op e.out
       let t (b : Bool) (s : String) := if b then [s] else []
-      joinSp ("ok" :: "conc" :: t overlap "overlap" ++ t changed "changed" ++ t (overlap && changed) "nontrivial")
+      -- `rd_<m>`: a call of the public read method <m> ran while a call of another thread that changed the knowledge
+      -- base was in flight (g get_rule, l get_rules, n get_rule_names, k rule_count, s get_rules_by_salience,
+      -- i get_rule_by_index, v version, t get_statistics, w get_rules_snapshot, x export_to_grl, y clone)
+      let contended := (evls.filter fun (e, rd) => rd != "-" &&
+        evs.any fun f => e.id != f.id && e.inv < f.resp && f.inv < e.resp && Out.changed f.op f.out).map (·.2)
+      let rds := ["g", "l", "n", "k", "s", "i", "v", "t", "w", "x", "y"].filter contended.contains
+      joinSp ("ok" :: "conc" :: t overlap "overlap" ++ t changed "changed" ++ rds.map ("rd_" ++ ·)
+        ++ t (overlap && changed) "nontrivial")
     else "fail not-linearizable"
 
 def oracleLine (line : String) : String :=
